@@ -29,7 +29,7 @@ func propC19(r *Run) {
 		model := w.populateDir(cfg, 2+r.Choose("nusers", 2), false)
 		users := sortedKeysA(model)
 		hdir := "/etc/whawty/hooks.d"
-		dirPerm := []uint32{0o755, 0o755, 0o700, 0o775, 0o757, 0o777}[r.Choose("hooks-dir-perm", 6)]
+		dirPerm := []uint32{0o755, 0o755, 0o700, 0o775, 0o757, 0o777, 0o1777, 0o1757, 0o1755, 0o2775, 0o2777, 0o1703}[r.Choose("hooks-dir-perm", 12)]
 		w.fs.PutDir(hdir, 0o755)
 		w.fs.PutDir("/usr/local/bin", 0o755)
 		w.fs.Put("/usr/local/bin/real-hook", []byte("#!/bin/sh\n"), 0o755)
@@ -153,19 +153,9 @@ func propC19(r *Run) {
 		w.drain(nil)
 
 		procs := w.ex.Snapshot()
-		// rounds: starts grouped by step
-		type round struct {
-			step  int
-			at    time.Time
-			paths map[string]*simexec.Proc
-		}
-		var rounds []*round
+		starts := map[string][]*simexec.Proc{} // per hook path, in start order
 		for _, p := range procs {
-			if len(rounds) == 0 || rounds[len(rounds)-1].step != p.Step {
-				rounds = append(rounds, &round{step: p.Step, at: p.StartAt, paths: map[string]*simexec.Proc{}})
-			}
-			rounds[len(rounds)-1].paths[p.Path] = p
-			// eligibility and invocation
+			starts[p.Path] = append(starts[p.Path], p)
 			el := false
 			for _, e := range eligible {
 				if e == p.Path {
@@ -194,7 +184,7 @@ func propC19(r *Run) {
 				r.Fail("hooks/hanging-not-killed", "%s hangs and was never killed (started %v ago)", p.Path, time.Since(p.StartAt))
 			}
 		}
-		// acknowledged changes
+		// acknowledged changes, each with the scheduler step at which its file operation happened
 		type change struct {
 			step int
 			c    *Call
@@ -211,84 +201,90 @@ func propC19(r *Run) {
 			case "remove":
 				ack = true // remove always reports success
 			}
-			if ack {
-				changes = append(changes, change{c.Return, c})
+			if !ack {
+				continue
 			}
+			// the change itself happened at the last rename/unlink of the user's file within the call
+			at := -1
+			for _, ext := range []string{".user", ".admin"} {
+				for _, b := range []string{cfg.BaseDir, cfgB.BaseDir} {
+					for _, st := range w.mutSteps[b+"/"+c.User+ext] {
+						if st >= c.Invoke && st <= c.Return && st > at {
+							at = st
+						}
+					}
+				}
+			}
+			if at < 0 {
+				at = c.Invoke // a no-op change (set-admin to the current value, remove of a missing user): notified all the same
+			}
+			changes = append(changes, change{at, c})
 		}
 		sort.Slice(changes, func(i, j int) bool { return changes[i].step < changes[j].step })
 		for _, ch := range changes {
-			want := baseOf(ch.step)
-			satisfied := false
-			var why string
-			for _, rd := range rounds {
-				if rd.step < ch.step {
-					continue
-				}
-				all := true
-				for _, e := range eligible {
-					p := rd.paths[e]
-					if p == nil {
-						all = false
-						why = fmt.Sprintf("round at step %d did not start %s", rd.step, e)
-						break
+			for _, e := range eligible {
+				satisfied := false
+				why := "it was not started at or after the change"
+				for _, p := range starts[e] {
+					if p.Step < ch.step {
+						continue
 					}
-					// accepted: the base directory in force at any moment between the change and
-					// the start of the round (a reload in between makes both defensible); a value
-					// that was in force at neither end -- a stale one -- is not
+					// accepted: the base directory in force at any moment between the change and the
+					// start (a reload in between makes both defensible); a stale value is not
 					ok := false
-					for s := ch.step; s <= rd.step && !ok; s++ {
+					for s := ch.step; s <= p.Step && !ok; s++ {
 						for _, ev := range p.Env {
 							if ev == "WHAWTY_AUTH_STORE="+baseOf(s) {
 								ok = true
 							}
 						}
 					}
-					if !ok {
-						all = false
-						why = fmt.Sprintf("round at step %d started %s with %v, the store in force was %s at the change and %s at the round", rd.step, e, storeEnv(p.Env), want, baseOf(rd.step))
+					if ok {
+						satisfied = true
 						break
 					}
+					why = fmt.Sprintf("its start at step %d carries %v, the store in force was %s at the change and %s at the start", p.Step, storeEnv(p.Env), baseOf(ch.step), baseOf(p.Step))
 				}
-				if all {
-					satisfied = true
-					break
+				if !satisfied {
+					sig := "hooks/change-not-notified"
+					if strings.Contains(why, "store in force") {
+						sig = "hooks/wrong-store-after-reload"
+					}
+					r.Fail(sig, "acknowledged %s (file operation at step %d) is not followed by a start of hook %s: %s", ch.c, ch.step, e, why)
 				}
-			}
-			if len(eligible) > 0 && !satisfied {
-				if why == "" {
-					why = "no hook round started at or after the change"
-				}
-				sig := "hooks/change-not-notified"
-				if strings.Contains(why, "store in force") {
-					sig = "hooks/wrong-store-after-reload"
-				}
-				r.Fail(sig, "acknowledged %s (returned at step %d, store %s) is not followed by a complete hook round: %s; rounds at steps %v", ch.c, ch.step, want, why, roundSteps(rounds))
 			}
 		}
-		// no round without a change: at every prefix, rounds <= acknowledged changes
-		for i, rd := range rounds {
-			nch := 0
-			for _, ch := range changes {
-				if ch.step <= rd.step {
-					nch++
+		// per hook: never more starts than changes so far (failed and read-only calls trigger nothing),
+		// and at most two starts in any half-open window of 5 s (leading + trailing edge)
+		nrounds := 0
+		for _, e := range eligible {
+			ps := starts[e]
+			if len(ps) > nrounds {
+				nrounds = len(ps)
+			}
+			for i, p := range ps {
+				nch := 0
+				for _, ch := range changes {
+					if ch.step <= p.Step {
+						nch++
+					}
+				}
+				if i+1 > nch {
+					r.Fail("hooks/round-without-change", "start #%d of %s at step %d, but only %d change(s) had happened by then (failed and read-only calls must trigger nothing)", i+1, e, p.Step, nch)
+				}
+				cnt := 0
+				for j := i; j < len(ps); j++ {
+					if ps[j].StartAt.Sub(p.StartAt) < 5*time.Second {
+						cnt++
+					}
+				}
+				if cnt > 2 {
+					r.Fail("hooks/not-coalesced", "%s started %d times within 5 s", e, cnt)
 				}
 			}
-			if i+1 > nch {
-				r.Fail("hooks/round-without-change", "hook round #%d started at step %d but only %d change(s) had been acknowledged by then (failed and read-only calls must trigger nothing)", i+1, rd.step, nch)
-			}
 		}
-		// at most two rounds start in any half-open window of 5 s
-		for i := range rounds {
-			cnt := 0
-			for j := i; j < len(rounds); j++ {
-				if rounds[j].at.Sub(rounds[i].at) < 5*time.Second {
-					cnt++
-				}
-			}
-			if cnt > 2 {
-				r.Fail("hooks/not-coalesced", "%d hook rounds started within 5 s of %v", cnt, rounds[i].at.Sub(time.Date(2000, 1, 1, 0, 0, 0, 0, time.UTC)))
-			}
-		}
+		type roundT struct{}
+		rounds := make([]roundT, nrounds)
 		if len(rounds) >= 2 {
 			r.Count("probe:two-or-more-rounds")
 		}
@@ -310,4 +306,3 @@ func storeEnv(env []string) []string {
 	return out
 }
 
-func roundSteps[T any](rs []*T) string { return fmt.Sprintf("%d rounds", len(rs)) }
